@@ -125,8 +125,9 @@ func (zzRnd14) Read(p []byte) (int, error) {
 	return len(p), nil
 }
 
-// H14-pkcs8-encrypted: an SM2 private key survives MarshalSm2EcryptedPrivateKey followed by
-// ParsePKCS8EcryptedPrivateKey with the same password unchanged; the file is protected by a
+// H14-pkcs8-encrypted: an SM2 private key survives MarshalSm2PrivateKey followed by
+// ParsePKCS8PrivateKey with the same password unchanged (nil = unencrypted form, any non-nil
+// password, also the empty one, = encrypted form, in both directions); the file is protected by a
 // key derived from the whole password, a fresh 8-byte salt and a fresh 16-byte IV from the
 // random source with at least 1000 iterations; and reading it with ANY other password (other
 // content or other length) is an error unless the two derived keys collide.
@@ -160,9 +161,18 @@ func zzH_c14_pkcs8_encrypted() {
 		rand.Reader = zzRnd14{}
 	}
 	zz14e.has, zz14e.pbkdfPw, zz14e.pbkdfSa, zz14e.pbkdfIt, zz14e.rnd = false, nil, nil, nil, nil
+	if vChoice("nilPassword", 2) == 1 {
+		// the dispatchers: a nil password means the unencrypted form, in both directions
+		der, err := MarshalSm2PrivateKey(key, nil)
+		vAssert("nil-password-marshal-ok", err == nil && len(zz14e.pbkdfPw) == 0 && !zz14e.has)
+		got, err := ParsePKCS8PrivateKey(der, nil)
+		vAssert("nil-password-opens", err == nil && got != nil && got.D.Cmp(D) == 0)
+		vReach("end")
+		return
+	}
 	pl := lens[vChoice("pwLen", 4)]
-	pw := vBytes("password", pl, pl)
-	der, err := MarshalSm2EcryptedPrivateKey(key, pw)
+	pw := append([]byte{}, vBytes("password", pl, pl)...) // non-nil also when empty
+	der, err := MarshalSm2PrivateKey(key, pw)
 	vAssert("encrypted-marshal-ok", err == nil && len(der) > 0)
 	if !vNative() {
 		e := zz14e.enc
@@ -176,7 +186,7 @@ func zzH_c14_pkcs8_encrypted() {
 	}
 	if vChoice("reader", 2) == 0 {
 		vReach("same-password")
-		got, err := ParsePKCS8EcryptedPrivateKey(der, append([]byte{}, pw...))
+		got, err := ParsePKCS8PrivateKey(der, append([]byte{}, pw...))
 		vAssert("same-password-opens", err == nil && got != nil)
 		if err == nil && got != nil {
 			vAssert("encrypted-D-unchanged", got.D.Cmp(D) == 0)
@@ -197,7 +207,7 @@ func zzH_c14_pkcs8_encrypted() {
 		k2, _ := zzStubAesNew(zzStubPbkdf14e(other, salt, 2048, 32, nil))
 		vAssume(!bytes.Equal(k1.(*zzAES14).pad[:3], k2.(*zzAES14).pad[:3]))
 	}
-	got, err := ParsePKCS8EcryptedPrivateKey(der, other)
+	got, err := ParsePKCS8PrivateKey(der, append([]byte{}, other...))
 	vAssert("other-password-is-an-error", err != nil && got == nil)
 	vReach("end")
 }
